@@ -1307,6 +1307,37 @@ func isStringsToBytes(h *ssa.Function) bool {
 	if ret == nil || len(core.Returns(h)) != 1 {
 		return false
 	}
+	if mk, isMake := ret.Results[0].(*ssa.MakeSlice); isMake {
+		// indexed form: out := make([][]byte, len(ss)); out[i] = []byte(ss[i])
+		ln, ok := mk.Len.(*ssa.Call)
+		if !ok || !core.IsBuiltin(&ln.Call, "len") || ln.Call.Args[0] != ssa.Value(h.Params[0]) {
+			return false
+		}
+		n := 0
+		for _, ref := range *mk.Referrers() {
+			switch x := ref.(type) {
+			case *ssa.IndexAddr:
+				if x.Index != r.Index || x.Block() != r.Body {
+					return false
+				}
+				for _, r2 := range *x.Referrers() {
+					st, ok := r2.(*ssa.Store)
+					if !ok {
+						return false
+					}
+					cv, ok := st.Val.(*ssa.Convert)
+					if !ok || cv.X != ssa.Value(r.Load) {
+						return false
+					}
+					n++
+				}
+			case *ssa.Return, *ssa.DebugRef:
+			default:
+				return false
+			}
+		}
+		return n == 1 && len(r.Body.Succs) == 1 && r.Body.Succs[0] == r.Header
+	}
 	acc, ok := ret.Results[0].(*ssa.Phi)
 	if !ok || acc.Block() != r.Header {
 		return false
